@@ -121,6 +121,52 @@ func runC12Bookkeeping(sum *Summary) error {
 			}
 		}
 	}
+	// every encodable key lies inside the wildcard range [\0, \0) - the smallest ones too (keys made of NUL bytes only,
+	// of every length up to the maximum)
+	{
+		g, _, err := newRealFSM(vfs.NewMem(), fsm.RecoveryTypeSnapshot)
+		if err != nil {
+			return err
+		}
+		defer g.close()
+		var es []gEntry
+		stored := 0
+		for _, l := range []int{1, 2, 5, 300, 1018, 1019, 1020, 1024} {
+			stored++
+			es = append(es, gEntry{Idx: uint64(stored), Cmd: gCmd{Kind: regattapb.Command_PUT, K: bytes.Repeat([]byte{0}, l), V: []byte("v")}})
+		}
+		for _, k := range [][]byte{{0, 1}, {1}, []byte("a"), {0xff}} {
+			stored++
+			es = append(es, gEntry{Idx: uint64(stored), Cmd: gCmd{Kind: regattapb.Command_PUT, K: k, V: []byte("v")}})
+		}
+		if _, _, err := g.apply(es); err != nil {
+			return err
+		}
+		for _, q := range []gRange{{Key: []byte{0}, End: []byte{0}}, {Key: []byte{0}, End: []byte{0}, KeysOnly: true}, {Key: []byte{0}, End: []byte{0}, CountOnly: true}} {
+			sum.Evaluations++
+			pages, err := g.iterate(q)
+			if err != nil {
+				return err
+			}
+			var n int64
+			for _, pg := range pages {
+				n += pg.Count
+			}
+			if n != int64(stored) {
+				sum.violate(320000, "the wildcard range [\\0, \\0) does not cover every stored key", map[string]any{"stored": "keys of 1, 2, 5, 300, 1018, 1019, 1020, 1024 NUL bytes, and 00 01, 01, 'a', ff", "keys_only": q.KeysOnly, "count_only": q.CountOnly},
+					fmt.Sprintf("%d of %d pairs", n, stored))
+				return nil
+			}
+		}
+		res, _, err := g.apply([]gEntry{{Idx: uint64(stored + 1), Cmd: gCmd{Kind: regattapb.Command_DELETE, K: []byte{0}, End: []byte{0}, Count: true}}})
+		if err != nil {
+			return err
+		}
+		sum.Evaluations++
+		if d := res[0].Resps[0].GetResponseDeleteRange().GetDeleted(); d != int64(stored) {
+			sum.violate(320001, "a wildcard range delete does not report every stored key", map[string]any{"stored": stored}, fmt.Sprintf("deleted %d", d))
+		}
+	}
 	return nil
 }
 
